@@ -663,3 +663,52 @@ func s23() []scenario {
 		}),
 	}
 }
+
+// ---- S24: complete key-agreement sessions (default identity, with confirmation, Destroy at the end) run by two
+// threads on the SAME long-term key objects. A per-key cache that a session object shares and its Destroy wipes, or
+// per-key lazily built state, is raced and observed through the keys both threads derive.
+
+func s24() scenario {
+	return scenario{name: "S24-sm2-kx-sessions-on-shared-keys", setup: func() *inst {
+		a, err := sm2.NewPrivateKey(fixedScalar(141))
+		if err != nil {
+			panic(err)
+		}
+		b, err := sm2.NewPrivateKey(fixedScalar(142))
+		if err != nil {
+			panic(err)
+		}
+		session := func(lane byte, uidA, uidB []byte) string {
+			ini, e1 := sm2.NewKeyExchange(a, &b.PublicKey, uidA, uidB, 32, true)
+			rsp, e2 := sm2.NewKeyExchange(b, &a.PublicKey, uidB, uidA, 32, true)
+			if e1 != nil || e2 != nil {
+				return fmt.Sprintf("err:%v/%v", e1, e2)
+			}
+			defer ini.Destroy()
+			defer rsp.Destroy()
+			ra, err := ini.InitKeyExchange(&engine.DetReader{Lane: lane})
+			if err != nil {
+				return "err:init:" + err.Error()
+			}
+			rb, sb, err := rsp.RepondKeyExchange(&engine.DetReader{Lane: lane + 1}, ra)
+			if err != nil {
+				return "err:respond:" + err.Error()
+			}
+			ka, sa, err := ini.ConfirmResponder(rb, sb)
+			if err != nil {
+				return "err:confirm-responder:" + err.Error()
+			}
+			kb, err := rsp.ConfirmInitiator(sa)
+			if err != nil {
+				return "err:confirm-initiator:" + err.Error()
+			}
+			return hex.EncodeToString(ka) + "/" + hex.EncodeToString(kb)
+		}
+		in := &inst{outs: make([]string, 2)}
+		in.threads = []func(){
+			func() { in.outs[0] = session(231, nil, nil) + "|" + session(233, nil, nil) },
+			func() { in.outs[1] = session(235, nil, nil) + "|" + session(237, []byte("explicit-A"), nil) },
+		}
+		return in
+	}}
+}
